@@ -14,6 +14,7 @@ func runC07(c *Ctx) {
 	c.Clause("C07.2 packets below the deleted threshold are never recorded and always count as duplicates; forget-below thresholds are monotone")
 	c.Clause("C07.3 duplicate test dominates frame handling for both header forms; the trackers refuse packets that are not new; per-level dispatch tables agree")
 	c.Clause("C07.4 ACK timing structure: an ack-eliciting 1-RTT packet leaves with an ACK queued or the alarm set to rcvTime+maxAckDelay; Initial/Handshake ACKs are not gated; the four immediate-ACK triggers exist")
+	c.Clause("C07.5 decision predicates of the forget-below pruning and of the gap-reveal / gap-fill ACK triggers (isMissing, hasNewMissingPackets, DeleteBelow trim and whole-range deletion) have the frozen shapes")
 	c.NotCovered("interval-list algebra (merge/insert/prune correctness), HighestMissingUpTo")
 	c.NotCovered("that ranges are disjoint and include the largest received, as a value-level fact")
 
@@ -21,6 +22,7 @@ func runC07(c *Ctx) {
 	c.rule("C07.2", func() { c07Thresholds(c) })
 	c.rule("C07.3", func() { c07Duplicates(c, "C07.3") })
 	c.rule("C07.4", func() { c07Timing(c) })
+	c.rule("C07.5", func() { c07Predicates(c) })
 }
 
 func c07Ranges(c *Ctx) {
@@ -426,4 +428,141 @@ func c07Timing(c *Ctx) {
 	// the level dispatch does not pass onlyIfQueued for Initial/Handshake: by signature
 	sig := inner.Type().(*types.Signature)
 	c.Check(sig.Params().Len() == 0, R, "shape:Initial/Handshake GetAckFrame takes no onlyIfQueued", "-", "Initial and Handshake ACKs cannot be deferred")
+}
+
+// c07Predicates freezes the small decision predicates whose off-by-one / sign variants
+// keep every sampled test green (seeded changes C07-1..3).
+func c07Predicates(c *Ctx) {
+	const R = "C07.5"
+	ranges := c.fld(ah, "receivedPacketHistory", "ranges")
+	st := c.fld(ah, "interval", "Start")
+	en := c.fld(ah, "interval", "End")
+	db := c.fn(ah, "receivedPacketHistory", "DeleteBelow")
+	isDel := func(i ssa.Instruction) bool {
+		s, ok := i.(*ssa.Store)
+		if !ok || fieldOfAddress(s.Addr) != ranges {
+			return false
+		}
+		cl, ok := s.Val.(*ssa.Call)
+		if !ok {
+			return false
+		}
+		o := calleeObj(&cl.Call)
+		return o != nil && o.Name() == "Delete" && o.Pkg().Path() == "slices"
+	}
+	c.Floor(R, "whole-range deletion in DeleteBelow", countInstr(db, isDel), 1)
+	whole := edgeSuccs(db, Rel{Op: token.LSS, X: Load(en), Y: ParamV("p")})
+	c.Floor(R, "range.End < p edges", len(whole), 1)
+	// the deletion is decided by a test `idx >= 0` after the scan; every exit reached from a
+	// "whole range below p" edge must go through that test (no early return inside the scan)
+	idxTest := func(i ssa.Instruction) bool {
+		ifi, ok := i.(*ssa.If)
+		if !ok {
+			return false
+		}
+		bo, ok := condCore(ifi.Cond).(*ssa.BinOp)
+		if !ok || bo.Op != token.GEQ || !ConstI(0)(bo.Y) {
+			return false
+		}
+		_, isPhi := bo.X.(*ssa.Phi)
+		return isPhi && reachesInstr(ifi.Block().Succs[0], isDel)
+	}
+	c.Floor(R, "idx >= 0 test guarding the deletion", countInstr(db, idxTest), 1)
+	c.cut(R, "prune:ranges entirely below the threshold are deleted", &Cut{Fn: db, StartBlocks: whole, Target: isReturn, Barrier: idxTest},
+		"once a range lies wholly below the forget threshold every exit goes through the deletion decision (no early return skips it)")
+	// trim: p > Start && p <= End → Start = p
+	for _, in := range findInstrs(db, func(i ssa.Instruction) bool {
+		s, ok := i.(*ssa.Store)
+		if !ok {
+			return false
+		}
+		fa, ok := s.Addr.(*ssa.FieldAddr)
+		return ok && fieldOfAddr(fa) == st
+	}) {
+		site := in
+		c.Check(ParamV("p")(in.(*ssa.Store).Val), R, "shape:trimmed range starts at p", c.P.InstrPos(in), "a straddling range is cut to start at the threshold")
+		c.cut(R, "guard:trim only when Start < p", &Cut{Fn: db, Target: func(i ssa.Instruction) bool { return i == site }, Edge: EdgeRel(Rel{Op: token.GTR, X: ParamV("p"), Y: Load(st)}, false)}, "a range starting exactly at the threshold is left alone (and the scan stops there)")
+		c.cut(R, "guard:trim only when p <= End", &Cut{Fn: db, Target: func(i ssa.Instruction) bool { return i == site }, Edge: EdgeRel(Rel{Op: token.LEQ, X: ParamV("p"), Y: Load(en)}, false)}, "only a range containing the threshold is trimmed")
+	}
+	// isMissing
+	im := c.fn(ah, "appDataReceivedPacketTracker", "isMissing")
+	ignoreBelow := c.fld(ah, "appDataReceivedPacketTracker", "ignoreBelow")
+	lastAck := c.fld(ah, "receivedPacketTracker", "lastAck")
+	largestAcked := c.obj("internal/wire", "AckFrame", "LargestAcked")
+	acks := c.obj("internal/wire", "AckFrame", "AcksPacket")
+	notFalse := func(i ssa.Instruction) bool {
+		r, ok := i.(*ssa.Return)
+		return ok && !isConstBool(retResults(r)[0], false)
+	}
+	c.cut(R, "isMissing:needs a previous ACK", &Cut{Fn: im, Target: notFalse, Edge: EdgeRel(Rel{Op: token.NEQ, X: Load(lastAck), Y: IsNil()}, false)}, "nothing was reported missing before the first ACK")
+	c.cut(R, "isMissing:p >= ignoreBelow", &Cut{Fn: im, Target: notFalse, Edge: EdgeRel(Rel{Op: token.GEQ, X: ParamV("p"), Y: Load(ignoreBelow)}, false)}, "a packet AT the ignore threshold can still fill a reported gap (only packets below it are ignored)")
+	// the non-constant result is p < LargestAcked() && !AcksPacket(p)
+	okShape := false
+	eachInstr(im, func(i ssa.Instruction) {
+		r, ok := i.(*ssa.Return)
+		if !ok || isConstBool(retResults(r)[0], false) {
+			return
+		}
+		ph, ok := retResults(r)[0].(*ssa.Phi)
+		if !ok {
+			return
+		}
+		hasNot := false
+		for _, e := range ph.Edges {
+			if u, ok := e.(*ssa.UnOp); ok && u.Op == token.NOT && CallTo(acks, -1, ParamV("p"))(u.X) {
+				hasNot = true
+			}
+		}
+		// the φ is reached through the p < LargestAcked() edge
+		lt := len(edgeSuccs(im, Rel{Op: token.LSS, X: ParamV("p"), Y: CallTo(largestAcked, -1)})) >= 1
+		okShape = hasNot && lt
+	})
+	c.Check(okShape, R, "isMissing:p < lastAck.LargestAcked() && !lastAck.AcksPacket(p)", c.P.Pos(im.Pos()), "a packet was reported missing iff it is below the last ACK's largest and not covered by it")
+	// hasNewMissingPackets: highestMissing > LargestAcked() - reorderingThreshold
+	hn := c.fn(ah, "appDataReceivedPacketTracker", "hasNewMissingPackets")
+	rt := c.konst(ah, "reorderingThreshold")
+	hmu := c.obj(ah, "receivedPacketHistory", "HighestMissingUpTo")
+	lo := c.fld(ah, "appDataReceivedPacketTracker", "largestObserved")
+	okRet := false
+	eachInstr(hn, func(i ssa.Instruction) {
+		r, ok := i.(*ssa.Return)
+		if !ok {
+			return
+		}
+		if BinV(token.GTR, CallTo(hmu, -1), BinV(token.SUB, CallTo(largestAcked, -1), ConstOf(rt)))(retResults(r)[0]) {
+			okRet = true
+		}
+	})
+	c.Check(okRet, R, "hasNewMissingPackets:highestMissing > LargestAcked()-reorderingThreshold", c.P.Pos(hn.Pos()), "a gap directly above the last ACK's largest acknowledged is new")
+	for _, in := range findInstrs(hn, CallsTo(hmu)) {
+		c.Check(BinV(token.SUB, Load(lo), ConstOf(rt))(in.(ssa.CallInstruction).Common().Args[1]), R, "hasNewMissingPackets:HighestMissingUpTo(largestObserved-reorderingThreshold)", c.P.InstrPos(in), "gaps are looked for below the largest observed packet")
+	}
+	c.cut(R, "hasNewMissingPackets:already reported gaps are not new", &Cut{Fn: hn, Target: func(i ssa.Instruction) bool {
+		r, ok := i.(*ssa.Return)
+		return ok && !isConstBool(retResults(r)[0], false)
+	}, Edge: EdgeRel(Rel{Op: token.GEQ, X: CallTo(hmu, -1), Y: CallTo(largestAcked, -1)}, false)}, "a gap below the last ACK's largest acknowledged was already reported")
+	c.Check(constInt(rt) == 1, R, "const:reorderingThreshold==1", "-", "a single out-of-order packet reveals a gap")
+}
+
+func reachesInstr(b *ssa.BasicBlock, p IP) bool {
+	seen := map[*ssa.BasicBlock]bool{}
+	var walk func(*ssa.BasicBlock) bool
+	walk = func(x *ssa.BasicBlock) bool {
+		if seen[x] {
+			return false
+		}
+		seen[x] = true
+		for _, in := range x.Instrs {
+			if p(in) {
+				return true
+			}
+		}
+		for _, s := range x.Succs {
+			if walk(s) {
+				return true
+			}
+		}
+		return false
+	}
+	return walk(b)
 }
